@@ -1,12 +1,19 @@
 import Driver.Common
 import Cppcheck.Model.XmlWf
-open Cppcheck.Wire Cppcheck.XmlWf
+import Cppcheck.Model.CacheCrash
+open Cppcheck.Wire Cppcheck.XmlWf Cppcheck.CacheCrash
 
 /-
 C20 driver.
   load <hex>                      -> "err" | "ok -" | "ok <hexname> <hexattr>=<hexvalue> ..."   (model of tinyxml2 Parse)
   decide <hexhash> <hexbytes>     -> reuse | load-error | no-root | bad-root | no-hash | hash-mismatch  (analyzeFile's look at a cache file)
   lits                            -> the literals of the model's cache document: headerA headerB footer (hex)
+  frun <reportCheckers> wp=<infoids|->:<findingids|-> <file>...
+        file = <id>;<hexhash>;<early>;<items>;<disk>     early = - | e[<id>,...]     items = - | <hex>:(E<id>[r]|I<id>),...
+        disk = - (no cache file) | R<n> (kill state: the new document cut after n bytes = `Touch.rewritten n`)
+             | X<cut>/<hexhash>/<items> (an explicit entry: byte prefix of another document, e.g. after `reopen`)
+      -> the FILE-LEVEL model executed on this state: `completeRun w o files (crashDir w files d0 c)`:
+         actions=<e|r|a per file> findings=<ids> wp=<ok|err> post=<len:items per file> nobd=<ids of noBuildDirRun>
   items <hexhash> <hexitem>...    -> "<b><b>..." one 0/1 per item: `balancedItem hash item`; then " doc=<0/1>": the document
                                      assembled from the items loads with root analyzerinfo and that hash
 -/
@@ -23,12 +30,102 @@ def decisionStr : Decision → String
   | .reuse => "reuse" | .loadError => "load-error" | .noRoot => "no-root" | .badRoot => "bad-root"
   | .noHash => "no-hash" | .hashMismatch => "hash-mismatch"
 
+/-! file-level model on real data -/
+
+def natList (s : String) : Option (List Nat) :=
+  if s == "-" || s == "" then some [] else (s.splitOn ",").mapM (·.toNat?)
+
+def parseItem (s : String) : Option Item :=
+  match s.splitOn ":" with
+  | [h, p] =>
+    match fromHex h with
+    | none => none
+    | some b =>
+      if p.startsWith "E" then
+        let r := p.endsWith "r"
+        let num : String := if r then ((p.drop 1).dropEnd 1).toString else (p.drop 1).toString
+        num.toNat?.map (fun x => ⟨b, .err x r⟩)
+      else if p.startsWith "I" then (p.drop 1).toNat?.map (fun i => ⟨b, .info i⟩)
+      else none
+  | _ => none
+
+def parseItems (s : String) : Option (List Item) :=
+  if s == "-" then some [] else (s.splitOn ",").mapM parseItem
+
+structure FileSpec where
+  id : Nat
+  hash : Str
+  early : Option (List Nat)
+  items : List Item
+  touch : Touch
+  entry : Option CacheEntry
+
+def parseDisk (s : String) : Option (Touch × Option CacheEntry) :=
+  if s == "-" then some (.untouched, none)
+  else if s.startsWith "R" then (s.drop 1).toNat?.map (fun n => (.rewritten n, none))
+  else if s.startsWith "X" then
+    match (s.drop 1).toString.splitOn "/" with
+    | [c, h, its] =>
+      match c.toNat?, fromHex h, parseItems its with
+      | some c, some h, some its => some (.untouched, some ⟨h, its, c⟩)
+      | _, _, _ => none
+    | _ => none
+  else none
+
+def parseFile (s : String) : Option FileSpec :=
+  match s.splitOn ";" with
+  | [i, h, e, its, d] =>
+    match i.toNat?, fromHex h, parseItems its, parseDisk d with
+    | some i, some h, some its, some (t, en) =>
+      let early := if e == "-" then some none else if e.startsWith "e" then (natList (e.drop 1).toString).map some else none
+      early.map (fun early => ⟨i, h, early, its, t, en⟩)
+    | _, _, _, _ => none
+  | _ => none
+
+def idsStr (l : List Nat) : String := if l.isEmpty then "-" else ",".intercalate (l.map toString)
+
+def frun (rc : Bool) (wpInfos wpFindings : List Nat) (fs : List FileSpec) : String :=
+  let look := fun (i : Nat) => fs.find? (fun f => f.id == i)
+  let w : World :=
+    { hashOf := fun i => match look i with | some f => f.hash | none => []
+      analyze := fun i _ => match look i with | some f => ⟨f.items, [], []⟩ | none => ⟨[], [], []⟩
+      early := fun i => match look i with | some f => f.early | none => none
+      wp := fun is => if is == wpInfos then wpFindings else [0]
+      wpError := 1
+      loadReturn := fun _ => []
+      checkersLine := fun _ => 2
+      wpActive := [] }
+  let files := fs.map (·.id)
+  let d0 : Dir := { Dir.empty with cache := fun i => match look i with | some f => f.entry | none => none }
+  let c : Crash := { cache := fun i => match look i with | some f => f.touch | none => .untouched
+                     summ := fun _ => none, filesTxt := some files.length, checkers := none }
+  let d := crashDir w files d0 c
+  let o : Opts := ⟨rc⟩
+  let acts := runActions w (summaryOf w d) ⟨[], { d with filesTxt := files }, []⟩ files
+  let r := completeRun w o files d
+  let actStr := String.join (acts.map fun | .early => "e" | .replay => "r" | .analyse => "a")
+  let wpok := (collectInfos r.2 files).isSome
+  let post := ",".intercalate (files.map fun i => match r.2.cache i with
+    | none => "-"
+    | some e => s!"{e.bytes.length}:{e.items.length}")
+  s!"actions={if actStr.isEmpty then "-" else actStr} findings={idsStr r.1} wp={if wpok then "ok" else "err"} post={post} nobd={idsStr (noBuildDirRun w o files)}"
+
 def step (line : String) : String :=
   match fields line with
   | ["decide", h, b] =>
     match fromHex h, fromHex b with
     | some h, some b => decisionStr (decision b h)
     | _, _ => "bad-op"
+  | "frun" :: rc :: wp :: files =>
+    match wp.splitOn "=" with
+    | ["wp", v] =>
+      match v.splitOn ":" with
+      | [a, b] =>
+        match natList a, natList b, files.mapM parseFile with
+        | some a, some b, some fs => frun (rc == "1") a b fs
+        | _, _, _ => "bad-op"
+      | _ => "bad-op"
+    | _ => "bad-op"
   | ["lits"] => s!"{toHex headerA} {toHex headerB} {toHex footer}"
   | ["load", h] =>
     match fromHex h with
